@@ -698,3 +698,69 @@ func InstrDominates(a, b ssa.Instruction) bool {
 	}
 	return ba.Dominates(bb)
 }
+
+// MayHeld computes, per instruction, the lock paths that are possibly held
+// (acquired on some path and not released by a non-deferred unlock since).
+type MayHeld struct {
+	in map[*ssa.BasicBlock]map[string]bool
+}
+
+func NewMayHeld(fn *ssa.Function) *MayHeld {
+	h := &MayHeld{in: map[*ssa.BasicBlock]map[string]bool{}}
+	if len(fn.Blocks) == 0 {
+		return h
+	}
+	for _, b := range fn.Blocks {
+		h.in[b] = map[string]bool{}
+	}
+	changed := true
+	for changed {
+		changed = false
+		for _, b := range fn.Blocks {
+			out := map[string]bool{}
+			for k := range h.in[b] {
+				out[k] = true
+			}
+			for _, in := range b.Instrs {
+				p, acq, rel, def := lockOp(in)
+				if acq && !def {
+					out[p] = true
+				}
+				if rel && !def {
+					delete(out, p)
+				}
+			}
+			for _, s := range b.Succs {
+				for k := range out {
+					if !h.in[s][k] {
+						h.in[s][k] = true
+						changed = true
+					}
+				}
+			}
+		}
+	}
+	return h
+}
+
+// At returns the lock paths possibly held just before instruction at.
+func (h *MayHeld) At(at ssa.Instruction) map[string]bool {
+	b := at.Block()
+	cur := map[string]bool{}
+	for k := range h.in[b] {
+		cur[k] = true
+	}
+	for _, in := range b.Instrs {
+		if in == at {
+			break
+		}
+		p, acq, rel, def := lockOp(in)
+		if acq && !def {
+			cur[p] = true
+		}
+		if rel && !def {
+			delete(cur, p)
+		}
+	}
+	return cur
+}
